@@ -1,8 +1,9 @@
 # RouteTable.tla <-> internal/routing (Table, DomainTable, ForwardTable, AgentTable, Manager)   C08 C09 C10
 #
 # Shared machinery of the three checks:
-#   model()        TLC on bounded instances (spec/MCRouteTable.tla names the universes, CFGS below the constants)
-#   sensitivity()  every deviation relevant to the property must be caught by TLC
+#   model_and_sensitivity()  TLC on bounded instances (spec/MCRouteTable.tla names the universes, CFGS below gives
+#                  the constants): the ideal spec must hold, every deviation of the property must be caught.  The
+#                  independent TLC instances run concurrently (run_many: local helper, same rules as ctx.tlc).
 #   replay()       spec -> code: the transition graph (EDGE) and the per-state acceptable lookup answers (LK) are
 #                  handed to the Go harness, which WALKS the graph on a real routing.Manager (it chooses uncovered
 #                  (state, action) pairs itself and locates the state it landed in among the spec's successors:
